@@ -16,7 +16,19 @@ const corpusDir = "/repo/snapshot/testdata/in"
 // knownNagaIssues lists (file, rule) pairs that were investigated and found to be real
 // defects of the emitted module (not of this validator).  See the engine report.
 // key: "file.wgsl|rule" or "*|rule" ; value: reason.
-var knownNagaIssues = map[string]string{}
+var knownNagaIssues = func() map[string]string {
+	m := map[string]string{}
+	// BoundsCheckReadZeroSkipWrite image loads: OpBranchConditional emitted without OpSelectionMerge
+	for _, f := range []string{"bounds-check-image-restrict-depth.wgsl", "bounds-check-image-restrict.wgsl", "bounds-check-image-rzsw-depth.wgsl",
+		"bounds-check-image-rzsw.wgsl", "image.wgsl", "storage-textures.wgsl", "texture-external.wgsl"} {
+		m[f+"|cfg.merge-missing"] = "RZSW image load: conditional branches without merge instruction"
+	}
+	// BoundsCheckRestrict with unsigned coordinates: OpConstantComposite vecN<u32> built from the i32 constant 1
+	for _, f := range []string{"image.wgsl", "storage-textures.wgsl", "texture-external.wgsl"} {
+		m[f+"|const.type"] = "Restrict image load: vecN<u32> constant composed of i32 constituents"
+	}
+	return m
+}()
 
 func corpusFiles(t testing.TB) []string {
 	fs, err := filepath.Glob(filepath.Join(corpusDir, "*.wgsl"))
@@ -51,9 +63,29 @@ func TestCorpusValidate(t *testing.T) {
 			t.Fatal(err)
 		}
 		okAny := false
+		type optSet struct {
+			ver  spirv.Version
+			dbg  bool
+			opts spirv.Options
+		}
+		var sets []optSet
 		for _, ver := range versions {
 			for _, dbg := range []bool{false, true} {
-				bin, err := compileWGSL(string(src), ver, dbg)
+				sets = append(sets, optSet{ver, dbg, spirv.Options{Version: ver, Debug: dbg}})
+			}
+		}
+		for _, ver := range []spirv.Version{spirv.Version1_1, spirv.Version1_5} {
+			sets = append(sets,
+				optSet{ver, false, spirv.Options{Version: ver, ForceLoopBounding: true}},
+				optSet{ver, false, spirv.Options{Version: ver, ForcePointSize: true, AdjustCoordinateSpace: true, UseStorageInputOutput16: true}},
+				optSet{ver, false, spirv.Options{Version: ver, BoundsCheckPolicies: spirv.BoundsCheckPolicies{ImageLoad: spirv.BoundsCheckRestrict, ImageStore: spirv.BoundsCheckRestrict, Index: spirv.BoundsCheckRestrict}}},
+				optSet{ver, true, spirv.Options{Version: ver, Debug: true, BoundsCheckPolicies: spirv.BoundsCheckPolicies{ImageLoad: spirv.BoundsCheckReadZeroSkipWrite, ImageStore: spirv.BoundsCheckReadZeroSkipWrite, Index: spirv.BoundsCheckReadZeroSkipWrite}}},
+			)
+		}
+		for _, os := range sets {
+			{
+				ver, dbg := os.ver, os.dbg
+				bin, err := compileWGSLOpts(string(src), os.opts)
 				if err != nil {
 					continue
 				}
@@ -128,4 +160,62 @@ func TestCorpusValidate(t *testing.T) {
 		}
 		t.Errorf("rule %s: %d issue(s) in %v\nfirst: %s", r, a.count, fl, a.first)
 	}
+}
+
+// TestCorpusRun executes every GLCompute entry point of the corpus on zero-filled
+// buffers.  The results are not judged (the shaders index with garbage); the point is
+// that the interpreter itself never fails: every outcome is a clean result, a trap or
+// the step limit.
+func TestCorpusRun(t *testing.T) {
+	traps := map[string]int{}
+	runs := 0
+	for _, f := range corpusFiles(t) {
+		base := filepath.Base(f)
+		src, _ := os.ReadFile(f)
+		bin, err := compileWGSL(string(src), spirv.Version1_3, true)
+		if err != nil {
+			continue
+		}
+		m, err := Parse(bin)
+		if err != nil {
+			t.Errorf("%s: %v", base, err)
+			continue
+		}
+		for _, ep := range m.EntryPoints() {
+			if ep.Model != EMGLCompute {
+				continue
+			}
+			bufs := map[Key][]byte{}
+			for _, rv := range m.ResourceVars() {
+				bufs[Key{rv.Set, rv.Binding}] = make([]byte, 1024)
+			}
+			for _, rev := range []bool{false, true} {
+				res, err := Run(m, RunConfig{Entry: ep.Name, Buffers: bufs, NumWorkgroups: [3]uint32{1, 1, 1}, StepLimit: 200000, ReverseOrder: rev, PushConstants: make([]byte, 256)})
+				runs++
+				if err != nil && err != ErrStepLimit {
+					t.Errorf("%s %s: %v", base, ep.Name, err)
+					continue
+				}
+				if res.Trap != "" {
+					key := res.Trap
+					if i := strings.Index(key, " ["); i > 0 {
+						key = key[:i]
+					}
+					if len(key) > 60 {
+						key = key[:60]
+					}
+					traps[key]++
+					if os.Getenv("SPV_TRAPS") != "" {
+						t.Logf("%s %s: %s", base, ep.Name, res.Trap)
+					}
+				}
+			}
+		}
+	}
+	var ks []string
+	for k, n := range traps {
+		ks = append(ks, fmt.Sprintf("%4d  %s", n, k))
+	}
+	sort.Strings(ks)
+	t.Logf("%d runs; traps:\n%s", runs, strings.Join(ks, "\n"))
 }
